@@ -550,6 +550,42 @@ def invert_rules(tree, fname):
     return "\n".join(f"  | .{k} => .{v}" for k, v in rules.items())
 
 
+# ------------------------------------------------------------------ DisjointShape.__new__ (collapse rules, in source order)
+def disjoint_new_steps(tree, fname):
+    fn = find_func(find_class(tree, "DisjointShape"), "__new__")
+    if fn is None:
+        raise Unsupported("DisjointShape.__new__ not found")
+    steps = []
+    body = body_wo_doc(fn)
+    i = 0
+    while i < len(body):
+        st = body[i]
+        src = ast.unparse(st)
+        if isinstance(st, ast.Assign) and src in ("subshapes = list(subshapes)", "subshapes = tuple(subshapes)"):
+            pass
+        elif isinstance(st, ast.While) and ast.unparse(st.test) == "EmptyShape() in subshapes" and [ast.unparse(b) for b in st.body] == ["subshapes.remove(EmptyShape())"]:
+            steps.append("removeEmpty")
+        elif isinstance(st, ast.Assign) and isinstance(st.value, (ast.ListComp, ast.GeneratorExp, ast.Call)) and "EmptyShape" in src and " if " in src \
+                and ("is not" in src or "!=" in src or "not isinstance" in src):
+            steps.append("removeEmpty")          # a filtering comprehension that keeps the non-empty operands
+        elif isinstance(st, ast.If) and ast.unparse(st.test) == "len(subshapes) == 0" and [ast.unparse(b) for b in st.body] == ["return EmptyShape()"] and not st.orelse:
+            steps.append("zeroIsEmpty")
+        elif isinstance(st, ast.If) and ast.unparse(st.test) == "len(subshapes) == 1" and [ast.unparse(b) for b in st.body] == ["return copy(subshapes[0])"] and not st.orelse:
+            steps.append("oneIsCopy")
+        elif isinstance(st, ast.For) and all(isinstance(b, ast.Assert) for b in st.body):
+            pass
+        elif isinstance(st, ast.Assign) and "__new__" in src:
+            rest = [ast.unparse(b) for b in body[i + 1:]]
+            if rest == ["instance.subshapes = subshapes", "return instance"]:
+                steps.append("build")
+                break
+            raise Unsupported(f"unsupported tail of DisjointShape.__new__ at {where(st, fname)}")
+        else:
+            raise Unsupported(f"unsupported statement in DisjointShape.__new__ at {where(st, fname)}: {src[:60]}")
+        i += 1
+    return "[" + ", ".join("." + x for x in steps) + "]"
+
+
 # ------------------------------------------------------------------ numeric literals
 def literal_consts(srcdir):
     """(name, value-as-Fraction) for the tolerance literals the properties mention"""
@@ -709,7 +745,7 @@ def regenerate(srcdir, gendir):
         out2.append(f"-- primitives: NOT TRANSLATED ({e!r})\n")
     out2.append("\nend ShapeVerif.Gen\n")
     ch2 = write_if_changed(os.path.join(gendir, "Tables.lean"), "".join(out2))
-    out4 = [HEADER, "import ShapeVerif.Model.Contain\nset_option linter.unusedVariables false\n\nnamespace ShapeVerif.Gen\nopen ShapeVerif\n"]
+    out4 = [HEADER, "import ShapeVerif.Model.Contain\nimport ShapeVerif.Model.Compose\nset_option linter.unusedVariables false\n\nnamespace ShapeVerif.Gen\nopen ShapeVerif\n"]
     try:
         tbl = contain_rules(tree, "shape.py")
         e, w = contains_shape_head(tree, "shape.py")
@@ -717,6 +753,8 @@ def regenerate(srcdir, gendir):
         out4.append("def containRule : CKind → CKind → Option CRule\n" + tbl + "\n")
         out4.append("/-- `DefinedShape.contains_shape`: answers for `other` Empty / Whole before the dispatch -/\n")
         out4.append(f"def containsEmptyAnswer : Bool := {e}\ndef containsWholeAnswer : Bool := {w}\n")
+        out4.append("/-- the statements of `DisjointShape.__new__`, in source order -/\n")
+        out4.append("def disjointNewSteps : List NewStep := " + disjoint_new_steps(tree, "shape.py") + "\n")
         out4.append("/-- how `~shape` is built for each kind -/\n")
         out4.append("def invertRule : CKind → InvRule\n" + invert_rules(tree, "shape.py") + "\n")
     except Unsupported as e:
@@ -736,4 +774,4 @@ def regenerate(srcdir, gendir):
     ch3 = write_if_changed(os.path.join(gendir, "Integrals.lean"), src5) or ch3
     if msgs:
         return False, "; ".join(msgs)
-    return True, f"translated 22 table units and {src3.count(chr(10) + 'def ') + src5.count(chr(10) + 'def ')} arithmetic units from shape.py, plot.py, polygon.py, jordancurve.py, curve.py (changed: {ch1 or ch2 or ch3 or ch4})"
+    return True, f"translated 23 table units and {src3.count(chr(10) + 'def ') + src5.count(chr(10) + 'def ')} arithmetic units from shape.py, plot.py, polygon.py, jordancurve.py, curve.py (changed: {ch1 or ch2 or ch3 or ch4})"
